@@ -2525,6 +2525,7 @@ DLLIMPORT int cfg_setlist(cfg_t *cfg, const char *name, unsigned int nvalues, ..
 {
 	va_list ap;
 	int result;
+	cfg_opt_t old;
 	cfg_opt_t *opt = cfg_getopt(cfg, name);
 
 	if (!opt || !is_set(CFGF_LIST, opt->flags)) {
@@ -2532,10 +2533,19 @@ DLLIMPORT int cfg_setlist(cfg_t *cfg, const char *name, unsigned int nvalues, ..
 		return CFG_FAIL;
 	}
 
-	cfg_free_value(opt);
+	/* a new value may be an element of the list it replaces (the result
+	 * of cfg_getnstr()): the old values go only after the new list is built */
+	old = *opt;
+	opt->values = NULL;
+	opt->nvalues = 0;
+	if (!is_set(CFGF_RESET, opt->flags))
+		opt->comment = NULL;
+
 	va_start(ap, nvalues);
 	result = cfg_addlist_internal(opt, nvalues, ap);
 	va_end(ap);
+
+	cfg_free_value(&old);
 
 	return result;
 }
